@@ -55,6 +55,6 @@ Proof. intros [[]|] []; reflexivity. Qed.
 (** shapes read as flags: the Vec / Option / Filtered / EnvFilter / DirectiveSet summaries the model mirrors *)
 Lemma source_flags :
   gen_vec_interest_is_conjunction = true /\ gen_vec_enabled_is_all = true /\ gen_vec_hint_is_max_from_off = true /\
-  gen_vec_markers = true /\ gen_layered_markers = true /\ gen_option_none_summaries = true /\ gen_filtered_summaries = true /\
+  gen_vec_markers = true /\ gen_layered_markers = true /\ gen_reload_markers = true /\ gen_option_none_summaries = true /\ gen_filtered_summaries = true /\
   gen_targets_summaries = true /\ gen_env_hint = true /\ gen_directive_add_max_exact = true.
 Proof. repeat split; reflexivity. Qed.
